@@ -365,8 +365,9 @@ pub(crate) mod verif_proxy {
     #[kani::proof]
     #[kani::unwind(12)]
     #[kani::stub(str::to_lowercase, to_lowercase_ascii)]
-    fn c11_t_builder_then_forurl_e3() {
-        builder_then_for_url::<3>();
+    fn c11_t_builder_then_forurl_e2() {
+        // E1 = 3 ran out of memory (24 GB)
+        builder_then_for_url::<2>();
     }
 
     macro_rules! builder_shape {
@@ -383,7 +384,7 @@ pub(crate) mod verif_proxy {
     builder_shape!(c11_q_builder_e2_e3_first_stored, 2, 3, false, 4);
     builder_shape!(c11_q_builder_e2_e3_second_stored, 2, 3, true, 5);
     builder_shape!(c11_t_builder_e1_e2_second, 1, 2, true, 1);
-    builder_shape!(c11_t_builder_e2_e1_first_https, 2, 1, false, 0);
+    builder_shape!(c11_t_builder_e2_e1_first_stored_https, 2, 1, false, 4);
     builder_shape!(c11_t_builder_e1_e1_unrelated, 1, 1, true, 2);
     builder_shape!(c11_t_builder_e1_e0_other_scheme, 1, 0, false, 3);
     builder_shape!(c11_t_builder_e3_e3_second, 3, 3, true, 1);
